@@ -18,7 +18,7 @@ different counts); a shape it does not recognise is UNDECIDED and raises no alar
 import harness
 from facts import norm, call_name, short, subnodes, lit_value, arm_variants, AnchorMissing, is_catch_all
 from prov import Prov, has_call
-from templates import first_match, method_chain, enclosing_contexts, index_of, LOSSY_OR_REORDERING
+from templates import first_match, method_chain, enclosing_contexts, index_of, LOSSY_OR_REORDERING, inlined
 
 UT = "nitrogql_utils::"
 COMPONENT = "std::path::Component"
@@ -78,6 +78,7 @@ def _calls_below(body):
 
 def r20a(P, R):
     normalize, _, _ = _path_fns(P)
+    normalize = inlined(P, normalize)
     ms = _component_matches(normalize)
     if len(ms) != 1:
         R.undecided("R20-a", "table", "normalize_path does not consist of one `match` over std::path::Component (%d found); "
@@ -199,6 +200,7 @@ def _side(atoms, p_from, p_to):
 
 def r20b(P, R):
     normalize, relative, _ = _path_fns(P)
+    relative = inlined(P, relative, pred=lambda g: g.path != normalize.path)
     pv, names = _params(relative)
     if len(names) != 2 or None in names:
         R.undecided("R20-b", "params", "relative_path parameters are destructured; roles not identified", loc=relative.loc())
@@ -373,9 +375,8 @@ def r20b(P, R):
                 negated = True
             if y.get("k") == "Match":
                 for arm in y["arms"]:
-                    v, catch = arm_variants({"arms": [arm]})
                     if lit_value(arm["body"]) is True:
-                        exempt |= v
+                        exempt |= _component_variants_in(arm["pat"])
         if exempt:
             R.check("R20-b", "leading-dot:exempt", negated and exempt == {"CurDir", "ParentDir"},
                     "`./` is added unless the first component is `.` or `..`",
@@ -435,6 +436,16 @@ def _recv_side(pv, e, p_from, p_to, depth=0):
     return set()
 
 
+def _component_variants_in(pat):
+    """variants of std::path::Component named anywhere inside a pattern (e.g. `Some(CurDir | ParentDir)`)"""
+    out = set()
+    for y in subnodes(pat):
+        d = norm(y.get("ctor_of") or y.get("def") or "")
+        if COMPONENT + "::" in d:
+            out.add(d.split("::")[-1])
+    return out
+
+
 def _plain_local(e):
     while e.get("k") in ("DropTemps", "Use", "Paren", "AddrOf", "Unary") and "e" in e:
         if e.get("k") == "Unary" and e.get("op") != "Deref":
@@ -484,6 +495,8 @@ def _pred_kind(clo):
 
 def r20c(P, R):
     normalize, _, resolve = _path_fns(P)
+    resolve_mir_path = resolve.path
+    resolve = inlined(P, resolve, pred=lambda g: g.path != normalize.path)
     pv, names = _params(resolve)
     if len(names) != 2 or None in names:
         R.undecided("R20-c", "params", "parameters destructured", loc=resolve.loc())
@@ -526,7 +539,7 @@ def r20c(P, R):
             R.undecided("R20-c", "join-order", "join operands not recognised", loc=loc)
         # ordering: the drop happens before the append (MIR dominance)
         from mirq import MirQ
-        mir = P.mir.get(resolve.path)
+        mir = P.mir.get(resolve_mir_path)
         if mir is not None and d_file:
             mq = MirQ(mir)
             pops = mq.calls_to(lambda p: p.endswith("PathBuf::pop"))
@@ -594,17 +607,28 @@ def r20d(P, R):
             else:
                 R.undecided("R20-d", "roles:%s#%d" % (key, sum(1 for s in sites[:sites.index((f, i, n))] if s[0] is f)),
                             "argument roles not recognised (%s | %s)" % (sorted(t0)[:4], sorted(t1)[:4]), loc=owner.loc())
-            # the extension rewrite is applied to the relative path
-            par = owner.parents_of(i)
-            wrapped = any(p.get("k") == "Call" and (call_name(p) or "").endswith("path_to_ts") for p in par[:3])
-            R.check("R20-d", "ts-extension:%s#%d" % (key, sum(1 for s in sites[:sites.index((f, i, n))] if s[0] is f)), wrapped,
-                    "the TS->JS extension rewrite is applied to the specifier",
-                    "the schema specifier is written without the TS->JS extension rewrite (`./schema.d.ts` is not importable)", loc=owner.loc())
+            # the extension rewrite (the function that reads the extension table) is applied to the relative path
+            idxk = sum(1 for s_ in sites[:sites.index((f, i, n))] if s_[0] is f)
+            rewriters = _ext_rewriters(P)
+            if not rewriters:
+                R.undecided("R20-d", "ts-extension:%s#%d" % (key, idxk), "the function applying the TS->JS extension table was not identified", loc=owner.loc())
+            else:
+                applied = False
+                for c in owner.walk():
+                    if c.get("k") in ("Call", "MethodCall") and call_name(c) in rewriters:
+                        args = ([c["recv"]] if c.get("k") == "MethodCall" else []) + c["args"]
+                        if any(has_call(pv.atoms(a), relative.path.split("::")[-1]) for a in args):
+                            applied = True
+                escapes = "PathBuf" in (owner.sig_output or "")
+                if applied:
+                    R.holds("R20-d", "ts-extension:%s#%d" % (key, idxk), "the TS->JS extension rewrite is applied to the specifier")
+                elif escapes:
+                    R.undecided("R20-d", "ts-extension:%s#%d" % (key, idxk), "the relative path is returned to the caller; rewrite not traced", loc=owner.loc())
+                else:
+                    R.violated("R20-d", "ts-extension:%s#%d" % (key, idxk), "the schema specifier is written without the TS->JS extension rewrite "
+                               "(`./schema.d.ts` is not importable)", loc=owner.loc())
     # ---- the extension table
-    tbl = P.fns.get("nitrogql_cli::generate::TS_TO_JS")
-    if tbl is None:
-        c = [f for p, f in P.fns.items() if p.startswith("nitrogql_cli::") and f.kind in ("Static", "Const") and "str" in (f.sig_output or "")]
-        tbl = None
+    tbl = _ext_table(P)
     if tbl is None:
         R.undecided("R20-d", "ext-table", "the TS->JS extension table was not found as a static", loc=None)
     else:
@@ -648,6 +672,30 @@ def r20d(P, R):
             R.holds("R20-d", "resolve-roles:" + short(f.path), "import paths are resolved against the importing file")
         else:
             R.undecided("R20-d", "resolve-roles:" + short(f.path), "argument roles not recognised", loc=f.loc())
+
+
+def _ext_table(P):
+    """the TS->JS extension table: a static/const of nitrogql_cli whose initialiser pairs string literals including ".d.ts"""""
+    hits = []
+    for p, f in P.fns.items():
+        if not p.startswith("nitrogql_cli::") or not (f.kind.startswith("Static") or f.kind.startswith("Const")):
+            continue
+        pairs = [t for t in subnodes(f.body) if t.get("k") == "Tup" and len(t.get("es", [])) == 2]
+        if any(lit_value(t["es"][0]) == ".d.ts" for t in pairs):
+            hits.append(f)
+    return hits[0] if len(hits) == 1 else None
+
+
+def _ext_rewriters(P):
+    tbl = _ext_table(P)
+    if tbl is None:
+        return set()
+    out = set()
+    for p, f in P.fns.items():
+        if p.startswith("nitrogql_cli::") and f.kind in ("Fn", "AssocFn") and not f.derived:
+            if any(y.get("k") == "Path" and norm(y.get("def") or "") == tbl.path for y in f.walk()):
+                out.add(p)
+    return out
 
 
 def _names_in(atoms):
